@@ -175,8 +175,13 @@ Proj(e) == [r |-> e.r,
             ck |-> IF Has(e, "ck") THEN e.ck ELSE << >>,
             msg |-> IF Has(e, "msg") THEN e.msg ELSE << >>,
             out |-> IF Has(e, "out") THEN e.out ELSE << >>]
+MsgOfEv(e) == IF Has(e, "s") THEN e.s.msg ELSE IF Has(e, "msg") THEN e.msg ELSE << >>
+DataOfEv(e) == IF Has(e, "s") THEN e.s.data ELSE << >>
 TwinViol(e) ==
     IF ~Has(e, "twin") THEN {}
+    ELSE IF e.twinmode = "msg"
+         THEN IF e.r = e.twin.r /\ MsgOfEv(e) = MsgOfEv(e.twin) /\ DataOfEv(e) = DataOfEv(e.twin) THEN {}
+              ELSE V(e.twinprop, "result / payload / decoded message differs from its twin (" \o e.twinwhy \o ")")
     ELSE IF Proj(e) = Proj(e.twin) THEN {}
     ELSE V(e.twinprop, "observation differs from its twin (" \o e.twinwhy \o ")")
 
@@ -290,7 +295,7 @@ Report ==
     PrintT(<<"RESULT", ToJson([events |-> cnt'.events, lines |-> cnt'.lines, unspec |-> cnt'.unspec,
                                lostskip |-> cnt'.lostskip, decoded |-> cnt'.decoded,
                                class |-> cnt'.class,
-                               types |-> [t \in {x \in 0..63 : cnt'.type[x] > 0} |-> cnt'.type[t]],
+                               types |-> {<<t, cnt'.type[t]>> : t \in {x \in 0..63 : cnt'.type[x] > 0}},
                                nviol |-> [p \in {x \in Props : nviol'[x] > 0} |-> nviol'[p]],
                                devs |-> [d \in {x \in DevIds : devs'[x] > 0} |-> devs'[d]],
                                viol |-> viol'])>>)
